@@ -65,7 +65,7 @@ for a in ["interface-field", "node-interface-field"]:
     known("C01", "C01-" + a + "-empty-fragment", [a], r"^errors: INVALID SUBREQUEST: Expected \{, found",
       "an interface-typed field whose per-type selection is empty at the routed service (only helpers selected, or the fields of one implementation live at another service) is rewritten into fragments with empty selection sets, which print as invalid GraphQL (planner/sequential_planner.go:197-236)",
       witness="{ named { ... on N3 { size } } } with N3.size owned by another service than the interface field")
-known("C01", "C01-node-typed-field", ["node-interface-field"], r"^diff:(MISSING|EXTRA) (id|__typename|<field>)$",
+known("C01", "C01-node-typed-field", ["node-interface-field"], r"^(diff:(MISSING|EXTRA) (id|__typename|<field>)|errors: INVALID SUBREQUEST: Unknown type \"<x>\"\.)$",
       "a field whose declared type is the Node interface itself is planned like the root node() entry point: plain fields / aliases next to fragments are dropped or leak helpers",
       witness="{ anyNode { ... on N2 { title } id } }")
 known("C01", "C01-shared-enum-extended", ["shared-enum-extended"], r"^errors: (INVALID SUBREQUEST: Value \"<x>\" does not exist in \"<x>\" enum\.|VARIABLE ERROR: input: variable\.\w+ \w+ is not a valid \w+)$",
@@ -82,6 +82,11 @@ known("C01", "C01-var-named-id", ["var-named-id"], r"^errors: INVALID SUBREQUEST
       witness="query($id:Int){ n2 { owner { calc(x:$id) } } }")
 known("C01", "C01-root-node-no-root-steps-with-fragment", ["root-node"], r"^errors: query plan contains no root steps$",
       "root node() whose only fragment selects nothing but id on a type that has no other field is planned into zero root steps", witness='{ node(id:"N1_1") { ... on Tenant { id } } }')
+known("C01", "C01-typename-aliased-in-union", ["union-field", "typename", "alias"], r"^errors: could not find the id for elements in target list: map\[…\]$",
+      "when the client aliases __typename inside a union-typed field the planner adds no __typename helper of its own and extractID cannot recognise the 'only __typename' object of a non-selected member",
+      witness="{ u { a: __typename ... on N1 { name } } }")
+known("C01", "C01-alias-named-node", ["alias-is-helper-name"], r"^diff:MISSING node$",
+      "a root field aliased `node` is treated like the Relay lookup by the executor's result handling", witness="{ node: leafs { __typename } }")
 known("C01", "C01-named-fragment-reused", ["frag-named-twice"], r"^diff:EXTRA (id|__typename)$",
       "sanitizeSelectionSet mutates the shared fragment definition on first use; the second spread sees the injected helper as client-selected and does not register it for scrubbing",
       witness="{ n2 { ...F } b: n2 { ...F } } fragment F on N2 { owner { calc } }")
@@ -111,6 +116,7 @@ known("C05", "C05-shared-type-id-in-one-service-only", ["conflict-shared-type-id
       "a plain (non-Node) type declared as {id, name} by one service and {name} by another is neither identical nor disjoint, yet it is accepted: id is left out of the overlap accounting for every type (mergeCustomObjectFields), and the merged type has or lacks id depending on the order. Not repaired: counting id breaks the repository's own TestMergeSupportsSpreadInterfaces, which relies on it",
       witness="type P {id: ID! name: String} / type P {name: String}")
 fixed("C04", "C04-node-shaped-fields-unrouted", "f39394f", "Mutation.archive(id: ID!): Node / Query.lookup(id: ID!): Node: any root field with the shape of the Relay lookup was left out of the routing table")
+fixed("C01", "C01-null-entries-in-lists", "ed593f4", "a child step below a list that contains null entries ([U] with a null) failed with 'entry in result wasn't a map'")
 fixed("C09", "C09-empty-list-for-object-crash", "61c2700", "service answers an object field on a child-step path with []: index out of range at executor/result.go:241 in a worker goroutine")
 # ----------------------------------------------------------------------------- C19
 for i, sg in enumerate([r"^file bytes changed on the way$", r"^diff:VALUE at <field>$", r"^service that uses the file variable did not receive the file at its path$", r"^diff:NULL "]):
